@@ -258,6 +258,60 @@ def run(ctx: Ctx) -> None:
     ctx.ob("R3.6", "parser:CxxParser._finish_class_decl|trailing declarators reuse the class's own name object", "state.class_decl.typename" in norm(fc),
            msg="trailing declarators of a class do not reuse the PQName (and anonymous id) of the class", node=fc, mod=mod, nontrivial=False)
 
+    # ---------------------------------------------------------------- R3.7
+    # Constructor / destructor recognition compares two names taken from qualified names.
+    # A qualified name can have any number of leading scopes, so the name OF a thing is its
+    # last segment and the class it belongs to is the segment before it: the segment indexes
+    # that feed the comparison are anchored at the right end.  (The comparison itself is a
+    # run-time value and is not decided.)
+    ctx.rule("R3.7", "constructor/destructor recognition: compared names are right-anchored segments (own name [-1], enclosing class [-2] or the class block's own [-1])", minimum=4)
+    pd = pm.fn("_parse_decl")
+    dcfg = pm.cfg("_parse_decl")
+    drd = reaching_defs(dcfg)
+    # locals that hold the `.name` of a segment: v = getattr(<...>.segments[K] | <alias>[K], "name", None)
+    seg_alias = {t.id for st in walk_local(pd) if isinstance(st, (ast.Assign, ast.AnnAssign)) and getattr(st, "value", None) is not None and norm(st.value).endswith(".segments")
+                 for t in (st.targets if isinstance(st, ast.Assign) else [st.target]) if isinstance(t, ast.Name)}
+    name_vars: Dict[str, int] = {}
+    for st in walk_local(pd):
+        if isinstance(st, ast.Assign) and isinstance(st.value, ast.Call) and norm(st.value.func) == "getattr" and len(st.value.args) >= 2 and isinstance(st.value.args[0], ast.Subscript) \
+                and isinstance(st.value.args[1], ast.Constant) and st.value.args[1].value == "name":
+            b = st.value.args[0].value
+            if norm(b).endswith(".segments") or (isinstance(b, ast.Name) and b.id in seg_alias):
+                for t in st.targets:
+                    if isinstance(t, ast.Name):
+                        name_vars[t.id] = name_vars.get(t.id, 0) + 1
+    cmps = [(n, c) for n in dcfg.nodes for c in n.walk() if isinstance(c, ast.Compare) and len(c.ops) == 1 and isinstance(c.ops[0], ast.Eq)
+            and len({x.id for x in ast.walk(c) if isinstance(x, ast.Name)} & set(name_vars)) == 2]
+    if not cmps:
+        raise AnalysisError("anchor vanished: the comparison of the class name with the declared name in _parse_decl")
+    # the declared (own) name is the side defined once, from the declared type's own segments
+    own_var = min(name_vars, key=lambda v: name_vars[v])
+    seen_sites = set()
+    for n, c in cmps:
+        for var in sorted({x.id for x in ast.walk(c) if isinstance(x, ast.Name)} & set(name_vars)):
+            for di in drd.get(n.id, {}).get(var, ()):
+                d = dcfg.nodes[di]
+                if d is dcfg.entry or id(d) in seen_sites or not isinstance(getattr(d, "stmt", None), ast.Assign):
+                    continue
+                seen_sites.add(id(d))
+                val = d.stmt.value
+                if isinstance(val, ast.Constant) and val.value is None:
+                    continue
+                subs = [x for x in ast.walk(val) if isinstance(x, ast.Subscript)]
+                idx = None
+                if len(subs) == 1:
+                    sl = subs[0].slice
+                    if isinstance(sl, ast.UnaryOp) and isinstance(sl.op, ast.USub) and isinstance(sl.operand, ast.Constant):
+                        idx = -sl.operand.value
+                    elif isinstance(sl, ast.Constant):
+                        idx = sl.value
+                base = norm(subs[0].value) if subs else "?"
+                own_class = "class_decl.typename.segments" in base
+                want = -1 if (var == own_var or own_class) else -2
+                ctx.ob("R3.7", f"parser:CxxParser._parse_decl|{var} from `{short(subs[0], 50) if subs else short(val, 50)}`", idx == want,
+                       msg=f"`{short(d.stmt, 70)}` takes segment [{idx}] where the {'declared name' if var == own_var else 'class name'} of a qualified name is segment [{want}]: with leading scopes ('struct Outer::Inner {{ Inner(); }}', 'A::B::B()') constructors and destructors are no longer recognised",
+                       node=d.stmt, mod=mod)
+
 
 def _admitted_keywords(pm: ParserModel, fname: str, cfg: CFG, n: Node) -> Optional[Set[str]]:
     """Token texts for which control can reach n: the innermost dominating test that
